@@ -31,7 +31,16 @@ fn http10_chunked_sender() -> Result<BodySender, String> {
 fn check_n(n: usize, rec: &mut Rec) {
     // chunked; every third n through an HTTP/1.0 request (the default framing is chunked there too)
     let http10 = n % 3 == 1;
-    let made = if http10 { http10_chunked_sender() } else { body_sender(None, false, false) };
+    // every fifth n: the caller names the coding itself, in either spelling
+    let explicit = !http10 && n % 5 == 2;
+    let made = if http10 {
+        http10_chunked_sender()
+    } else if explicit {
+        rec.cov("chunked/caller-named-coding");
+        crate::drive::body_sender_ex(None, true, false, if n % 2 == 0 { 128 } else { 0 })
+    } else {
+        body_sender(None, false, false)
+    };
     let mut s = match made {
         Ok(s) => s,
         Err(e) => return rec.fail("C18/setup", e),
@@ -98,18 +107,76 @@ fn check_n(n: usize, rec: &mut Rec) {
     }
 }
 
+/// One flow, many buffer sizes in a row: what was advertised for the buffer at hand must fit whatever
+/// happened on this flow before - including the empty writes that a zero maximum amounts to.
+fn one_flow_many_n(rng: &mut Rng, rec: &mut Rec) {
+    let mut s = match body_sender(None, false, false) {
+        Ok(s) => s,
+        Err(e) => return rec.fail("C18/setup", e),
+    };
+    let steps = rng.usize_in(2, 30);
+    for step in 0..steps {
+        let n = match rng.below(4) {
+            0 => rng.usize_in(0, 4),
+            1 => rng.usize_in(5, 12),
+            2 => *rng.pick(&[21usize, 22, 261, 262, 4102, 4103, 10247, 10248, 10249, 20496]),
+            _ => rng.usize_in(6, 30_000),
+        };
+        rec.call();
+        let m = max_input(&mut s, n);
+        if m > n {
+            return rec.fail("C18/max-exceeds-buffer", format!("calculate_max_input({}) = {} > n", n, m));
+        }
+        let mut buf = vec![0u8; n];
+        if m == 0 {
+            if n < 5 {
+                // an empty write that cannot even carry the end marker: nothing happens, the body goes on
+                rec.call();
+                let r = s.write(&[], &mut buf);
+                rec.ev(|| format!("step {}: empty write into {} bytes -> {:?}", step, n, r));
+                rec.cov("one-flow/empty-write-without-room");
+                if s.finished() {
+                    return rec.fail("C18/finished-without-room", format!("an empty write into {} bytes finished the body", n));
+                }
+            }
+            continue;
+        }
+        let input = crate::wire::payload(m, (step % 200) as u8);
+        rec.call();
+        let r = s.write(&input, &mut buf);
+        rec.ev(|| format!("step {}: calculate_max_input({}) = {}; write -> {:?}", step, n, m, r));
+        match r {
+            Ok((c, p)) => {
+                if c != m {
+                    return rec.fail(
+                        "C18/advertised-max-not-consumed",
+                        format!("step {} on the same flow: calculate_max_input({}) = {} but write(in={}, out={}) consumed only {} (produced {})", step, n, m, m, n, c, p),
+                    );
+                }
+                match decode_chunked_strict(&buf[..p.min(n)]) {
+                    Ok(d) if d.data == input && !d.terminated => rec.cov("one-flow/advertised-write"),
+                    Ok(d) => return rec.fail("C18/wire-differs", format!("n={}: wire decodes to {} bytes terminated={}", n, d.data.len(), d.terminated)),
+                    Err(e) => return rec.fail("C18/wire-invalid", format!("n={}: {}", n, e)),
+                }
+            }
+            Err(e) => return rec.fail("C18/write-error", format!("step {}: write(in={}, out={}) -> Err({:?})", step, m, n, e)),
+        }
+    }
+}
+
 impl Property for P {
     fn id(&self) -> &'static str {
         "C18"
     }
     fn rule(&self) -> String {
-        "for every buffer length n: m = calculate_max_input(n) must satisfy m <= n, m(n+1) >= m(n), and a real write of m bytes into an n-byte buffer must consume all m (wire strictly decoded and compared); length-delimited: m == n and n bytes pass in one write. n enumerated over 0..=3*10248+64, random n up to 2^22 in the thorough tier. class = hex digit count of n x position relative to the chunk size.".into()
+        "for every buffer length n: m = calculate_max_input(n) must satisfy m <= n, m(n+1) >= m(n), and a real write of m bytes into an n-byte buffer must consume all m (wire strictly decoded and compared); length-delimited: m == n and n bytes pass in one write. n enumerated over 0..=3*10248+64, random n up to 2^22 in the thorough tier. Every fifth n the caller names the coding itself (chunked / Chunked). one-flow-many-n: 2..30 advertised-size writes in a row on ONE flow with tiny buffers (whose zero maximum amounts to an empty write without room) mixed in. class = hex digit count of n x position relative to the chunk size.".into()
     }
     fn assumptions(&self) -> Vec<String> {
         vec!["m == 0 is vacuous for the write (an empty write is the finishing write), only the bound/monotonicity are checked there".into()]
     }
     fn workloads(&self, tier: Tier) -> Vec<Workload> {
         let mut v = vec![Workload::new("every-n", RANGE, true, "every n in 0..=3*10248+64")];
+        v.push(Workload::new("one-flow-many-n", tier.pick(3_000, 300_000), false, "2..30 advertised-size writes in a row on one flow, tiny and boundary buffers mixed in"));
         if tier == Tier::Thorough {
             v.push(Workload::new("random-n", 400_000, false, "random n up to 2^22, biased to multiples of 10248 +-16"));
         } else {
@@ -120,6 +187,9 @@ impl Property for P {
     fn run_case(&self, wl: &str, idx: u64, seed: u64, rec: &mut Rec) {
         if wl == "every-n" {
             check_n(idx as usize, rec)
+        } else if wl == "one-flow-many-n" {
+            let mut rng = Rng::derive(seed, "C18-one-flow", idx);
+            one_flow_many_n(&mut rng, rec)
         } else {
             let mut rng = Rng::derive(seed, "C18", idx);
             let n = if rng.chance(1, 2) {
@@ -138,6 +208,9 @@ impl Property for P {
             ("chunked/hexdigits-of-n=4*".into(), 10000),
             ("length/n>0".into(), 10000),
             ("chunked/http10-request".into(), 5000),
+            ("chunked/caller-named-coding".into(), 3000),
+            ("one-flow/empty-write-without-room".into(), 500),
+            ("one-flow/advertised-write".into(), 5000),
         ]
     }
 }
